@@ -242,6 +242,9 @@ func zero(t types.Type) value {
 		}
 		return s
 	case *types.Tuple:
+		if t.Len() == 0 {
+			return nil
+		}
 		if t.Len() == 1 {
 			return zero(t.At(0).Type())
 		}
